@@ -53,6 +53,17 @@ def model_query(case, impl_res):
     qs.append(dict(p='C09', op='channels', wfs=DC.fracs(sm['clusters_wfs'])))
     qs.append(dict(p=PID, op='depths', ys=DC.fracs([p[1] for p in sm['channel_positions']]), peaks=sm['clusters_channels'],
                    nan_idx=sm['nan_idx'], spike_clusters=sm['spike_clusters']))
+    spec = case.get('spec')
+    if spec is not None:
+        # cluster waveforms of the source model against the C08 model (curated datasets)
+        st8 = spec['spike_templates']
+        qs.append(dict(p='C08', op='clusters', W=DC.fracs(spec['templates']), chans=sm['chans_w'], st=st8,
+                       sc=spec.get('spike_clusters') or st8, ns=len(spec['templates'][0]), nc=spec['n_channels']))
+    if spec is not None and spec.get('pc_features') is not None and sm.get('has_features'):
+        # feature-weighted spike depths from the C09 model, on the stored feature arrays
+        qs.append(dict(p='C09', op='depths', feat0=DC.fracs([[row for row in f[0]] for f in spec['pc_features']]),
+                       cols=spec['pc_feature_ind'], ys=DC.fracs([p[1] for p in spec['channel_positions']]),
+                       spike_templates=spec['spike_templates']))
     return dict(p=PID, op='multi', qs=qs)
 
 
@@ -101,6 +112,12 @@ def judge(case, impl_res, ans):
         # merged datasets carry large token values whose float32 template storage is not exact: only the
         # index bookkeeping (raw indices, listed channels) is claimed on them
         return None
+    # 2b. the cluster waveforms everything below is derived from (C08): count-weighted means of the
+    # templates on the dominant template's channels when the dataset is curated
+    if len(res) > 7 and 'data' in res[7] and sm['spike_clusters'] != sm['spike_templates']:
+        exp_cw = [[[DC.to_float(x) for x in row] for row in M] for M in res[7]['data']]
+        if sm['clusters_wfs'] != exp_cw:
+            return 'SPEC: cluster waveforms of the source are not the count-weighted template means on the dominant template\'s channels'
     # 3. waveforms and amplitudes
     for i, fam, n in ((3, 'templates', sm['n_templates']), (4, 'clusters', sm['n_clusters'])):
         m = res[i]
@@ -158,6 +175,10 @@ def judge(case, impl_res, ans):
         return 'SPEC: spikes.depths shape'
     elif sm.get('depths') is not None and not _close(sd['vals'], sm['depths'], 1e-6):
         return 'SPEC: spikes.depths differ from the feature-weighted depths of the source model (C09)'
+    elif len(res) > 8 and 'model' in res[8]:
+        exp_fd = [DC.to_float(x) for x in res[8]['model']]
+        if not _close(sd['vals'], exp_fd, 1e-6):
+            return 'SPEC: spikes.depths differ from the feature-weighted channel depths (NaN where no positive weight)'
     return None
 
 
@@ -203,7 +224,8 @@ def gen(tier, rng):
             c = M.merge_case(rng, nprobes=[1, 2, 3, 4][i % 4], gapped=(i % 2 == 0))
             yield dict(p=PID, probes=c['probes'], dirnames=c['dirnames'], factor=[1, 2.5][i % 2], n_closest=rng.pick([2, 3, 12]))
         else:
-            spec = DC.dense_spec(rng, raw=(i % 4 == 1), feats=(i % 2 == 0), probes=(i % 5 == 0), empty=['none', 'last', 'middle'][i % 3])
+            spec = DC.dense_spec(rng, raw=(i % 4 == 1), feats=(i % 2 == 0), probes=(i % 5 == 0), empty=['none', 'last', 'middle'][i % 3],
+                                 cmap=['random', 'identity'][i % 2])
             if i % 3 == 1:     # probe coordinates stored as integers
                 spec['dtypes'] = dict(spec.get('dtypes') or {}, channel_positions=['int32', 'uint32', 'int64', 'uint16'][(i // 3) % 4])
             yield dict(p=PID, spec=spec, factor=[1, 2.5][i % 2], label=['', 'probe00'][i % 7 == 0], n_closest=rng.pick([2, 3, 12]), reexport=(i % 4 == 1 and i % 7 != 0),
